@@ -12,6 +12,8 @@ Inductive kvop :=
 | OpPaths (key : str)                         (* Map.PathsForKey *)
 | OpShortest (key : str)                      (* Map.PathForKeyShortest *)
 | OpLeaf (noattr : bool) (attrPrefix textK : str) (dotn : bool)   (* Map.LeafNodes *)
+| OpLeafPaths (noattr : bool) (attrPrefix textK : str) (dotn : bool)   (* Map.LeafPaths *)
+| OpLeafValues (noattr : bool) (attrPrefix textK : str) (dotn : bool)  (* Map.LeafValues *)
 | OpUpdate (nv : newval) (path : str) (sk : list str)             (* Map.UpdateValuesForPath *)
 | OpSet (v : value) (path : str)              (* Map.SetValueForPath *)
 | OpRemove (path : str)                       (* Map.Remove *)
@@ -36,6 +38,33 @@ Record case := {
 
 Fixpoint tbl_pf (t : list (str * option flt)) (x : str) : option flt :=
   match t with [] => None | (k, v) :: t' => if str_eqb k x then v else tbl_pf t' x end.
+
+(* equality that also ignores the order of list members, at every depth; used
+   where a list was filled in map-iteration order (wildcard old paths of NewMap) *)
+Fixpoint vequ (a b : value) : bool :=
+  match a, b with
+  | VMap m1, VMap m2 =>
+      Nat.eqb (length m1) (length m2) &&
+      (fix go (m1 : entries) : bool :=
+         match m1 with
+         | [] => true
+         | (k1, v1) :: t1 => match lookup k1 m2 with Some v2 => vequ v1 v2 && go t1 | None => false end
+         end) m1
+  | VList l1, VList l2 =>
+      Nat.eqb (length l1) (length l2) &&
+      (fix go (l1 : list value) (l2 : list value) : bool :=
+         match l1 with
+         | [] => match l2 with [] => true | _ => false end
+         | v1 :: t1 =>
+             (* greedy: vequ is an equivalence, so the first match is as good as any *)
+             (fix pick (pre l2 : list value) : bool :=
+                match l2 with
+                | [] => false
+                | v2 :: t2 => if vequ v1 v2 then go t1 (rev_append pre t2) else pick (v2 :: pre) t2
+                end) [] l2
+         end) l1 l2
+  | _, _ => veqb a b
+  end.
 
 Definition vlist_eqb (ordered : bool) (a b : list value) : bool :=
   if ordered then veqb (VList a) (VList b) else perm_eqb veqb a b.
@@ -103,6 +132,18 @@ Definition check_case (c : case) : bool :=
       | Ret (VList r) => vlist_eqb (c_ordered c) (map leaf_val (leaf_nodes ap tk dotn m noattr)) r
       | _ => false
       end
+  | OpLeafPaths noattr ap tk dotn =>
+      unchanged &&
+      match c_out c with
+      | Ret (VList r) => vlist_eqb (c_ordered c) (map (fun pv => VStr (fst pv)) (leaf_nodes ap tk dotn m noattr)) r
+      | _ => false
+      end
+  | OpLeafValues noattr ap tk dotn =>
+      unchanged &&
+      match c_out c with
+      | Ret (VList r) => vlist_eqb (c_ordered c) (map snd (leaf_nodes ap tk dotn m noattr)) r
+      | _ => false
+      end
   | OpUpdate nv path sk =>
       match update_values_for_path pf sep m nv path sk, c_out c with
       | Ok (m', n), Ret (VInt z) => Z.eqb z (Z.of_nat n) && veqb after m'
@@ -130,8 +171,8 @@ Definition check_case (c : case) : bool :=
   | OpNewMap pairs =>
       unchanged &&
       match new_map pf sep m pairs, c_out c with
-      | (n, Ok _), Ret r => veqb r (VMap n)
-      | (n, Err _), Fail _ r => veqb r (VMap n)
+      | (n, Ok _), Ret r => if c_ordered c then veqb r (VMap n) else vequ r (VMap n)
+      | (n, Err _), Fail _ r => if c_ordered c then veqb r (VMap n) else vequ r (VMap n)
       | _, _ => false
       end
   end.
